@@ -20,9 +20,20 @@ def hxlist(parts):
 
 class Gen:
     """One PRNG per generator run; every random choice derives from the seed."""
-    def __init__(self, seed):
+    def __init__(self, seed, spell_seed=None):
         self.r = random.Random(seed)
+        # second stream: choices that only affect header-name spelling, list layout and blanks
+        self.sp = random.Random(seed if spell_seed is None else spell_seed)
         self.stats = {}
+
+    def sp_pick(self, seq):
+        return seq[self.sp.randrange(len(seq))]
+
+    def sp_chance(self, p):
+        return self.sp.random() < p
+
+    def sp_rint(self, a, b):
+        return self.sp.randint(a, b)
 
     def count(self, key, n=1):
         self.stats[key] = self.stats.get(key, 0) + n
